@@ -557,8 +557,9 @@ example : withinBuffersB 1 2 10 (3, 1000) (1, 1000) = true ∧ withinBuffersB 1 
   theorems below give each side of the bounds its own `ρ`, assuming only that GEOS's buffer contains
   one probe point per side: the point `ρ` buffers beyond a vertex that attains the extreme of that
   side (cut at the domain edge).  The check evaluates these four probes on GEOS's actual buffer and
-  judges the bounds of every result side by side (`offCap`: `ρ = 1 − 10⁻⁵` where the extreme is
-  attained off an open line end, the round-cap finding's `1 − 0.4815 %` elsewhere).
+  judges the bounds of every result side by side (`offCap`: `ρ = 1 − 10⁻⁵` where no open line end
+  attains the extreme or comes within 1 % of a buffer of it, the round-cap finding's `1 − 0.4815 %`
+  elsewhere).
 -/
 
 /-- a point of the domain whose scaled image lies in GEOS's buffer is in the result -/
@@ -617,35 +618,41 @@ theorem C11_pipeline_bounds_extend_sides (buf : PSet → PSet) (S : PSet) (g : G
     have := hrb _ (C11_pipeline_probe buf S tb fb m maxT hm0 hm (c.1, min (c.2 + ρ₄ * fb) MAXF) hd hb)
     rw [← e]; exact this.2.2.2
 
-/-- what a flag of `offCap` means: that side's extreme is attained at a vertex `compute_bounds`
-    ranges over that is not the end of an open line (so its probe is judged with `ρ` next to 1) -/
-theorem C11_offcap_vertex (g : Geom) (b : Bounds) :
-    ((offCap g b)[0]? = some true → ∃ c ∈ g.boundPts, c ∉ lineEnds g ∧ c.1 = b.st) ∧
-    ((offCap g b)[1]? = some true → ∃ c ∈ g.boundPts, c ∉ lineEnds g ∧ c.2 = b.lo) ∧
-    ((offCap g b)[2]? = some true → ∃ c ∈ g.boundPts, c ∉ lineEnds g ∧ c.1 = b.en) ∧
-    ((offCap g b)[3]? = some true → ∃ c ∈ g.boundPts, c ∉ lineEnds g ∧ c.2 = b.hi) := by
+/-- what a flag of `offCap` means: that side's extreme is attained (by a vertex `compute_bounds`
+    ranges over), and every vertex attaining it -- every vertex within `μ` buffers of it -- is not
+    the end of an open line (so its probe is judged with `ρ` next to 1) -/
+theorem C11_offcap_vertex (g : Geom) (b : Bounds) (tb fb μ : Rat) (hb : g.bounds = some b) :
+    ((offCap g b tb fb μ)[0]? = some true → ∃ c ∈ g.boundPts, c.1 = b.st ∧ ∀ e ∈ lineEnds g, b.st + μ * tb < e.1) ∧
+    ((offCap g b tb fb μ)[1]? = some true → ∃ c ∈ g.boundPts, c.2 = b.lo ∧ ∀ e ∈ lineEnds g, b.lo + μ * fb < e.2) ∧
+    ((offCap g b tb fb μ)[2]? = some true → ∃ c ∈ g.boundPts, c.1 = b.en ∧ ∀ e ∈ lineEnds g, e.1 < b.en - μ * tb) ∧
+    ((offCap g b tb fb μ)[3]? = some true → ∃ c ∈ g.boundPts, c.2 = b.hi ∧ ∀ e ∈ lineEnds g, e.2 < b.hi - μ * fb) := by
+  obtain ⟨_, ⟨p1, hp1, e1⟩, ⟨p2, hp2, e2⟩, ⟨p3, hp3, e3⟩, ⟨p4, hp4, e4⟩⟩ :=
+    SE.Proofs.Lemmas.Bounds.ptsBounds_isBoundsOf _ _ hb
   refine ⟨?_, ?_, ?_, ?_⟩ <;>
   · intro h
-    simp only [offCap, List.getElem?_cons_zero, List.getElem?_cons_succ, Option.some.injEq, List.any_eq_true,
-      decide_eq_true_eq, jointPts, List.mem_filter, Bool.not_eq_true', List.contains_eq_mem,
-      decide_eq_false_iff_not] at h
-    obtain ⟨c, ⟨hc, hn⟩, e⟩ := h
-    exact ⟨c, hc, hn, e⟩
+    simp only [offCap, List.getElem?_cons_zero, List.getElem?_cons_succ, Option.some.injEq, Bool.not_eq_true',
+      List.any_eq_false, decide_eq_true_eq, not_le] at h
+    first
+    | exact ⟨p1, hp1, e1, h⟩
+    | exact ⟨p2, hp2, e2, h⟩
+    | exact ⟨p3, hp3, e3, fun e he => by have := h e he; linarith⟩
+    | exact ⟨p4, hp4, e4, fun e he => by have := h e he; linarith⟩
 
 /-- points, multi-points, polygons, multi-polygons and closed lines have no open line end: every
     side of their bounds is judged at full sharpness -/
-theorem C11_offcap_all (g : Geom) (b : Bounds) (hb : g.bounds = some b) (he : lineEnds g = []) :
-    offCap g b = [true, true, true, true] := by
-  obtain ⟨_, ⟨p1, hp1, e1⟩, ⟨p2, hp2, e2⟩, ⟨p3, hp3, e3⟩, ⟨p4, hp4, e4⟩⟩ :=
-    SE.Proofs.Lemmas.Bounds.ptsBounds_isBoundsOf _ _ hb
-  have hj : jointPts g = g.boundPts := by simp [jointPts, he]
-  simp only [offCap, hj, List.cons.injEq, List.any_eq_true, decide_eq_true_eq, and_true]
-  exact ⟨⟨p1, hp1, e1⟩, ⟨p2, hp2, e2⟩, ⟨p3, hp3, e3⟩, ⟨p4, hp4, e4⟩⟩
+theorem C11_offcap_all (g : Geom) (b : Bounds) (tb fb μ : Rat) (he : lineEnds g = []) :
+    offCap g b tb fb μ = [true, true, true, true] := by
+  simp [offCap, he]
 
 example : lineEnds (.polygon [[(0, 0), (3, 0), (3, 5), (0, 0)]]) = [] := by decide +kernel
-example : offCap (.lineString [(1, 3), (2, 7), (4, 5)]) ⟨1, 3, 4, 7⟩ = [false, false, false, true] := by decide +kernel
-example : offCap (.lineString [(1, 3), (2, 7), (4, 5), (1, 3)]) ⟨1, 3, 4, 7⟩ = [true, true, true, true] := by decide +kernel
-example : offCap (.lineString [(1, 3), (2, 7), (4, 5), (4, 5)]) ⟨1, 3, 4, 7⟩ = [false, false, false, true] := by decide +kernel
+example : lineEnds (.lineString [(1, 3), (2, 7), (4, 5), (1, 3)]) = [] := by decide +kernel
+example : offCap (.lineString [(1, 3), (2, 7), (4, 5)]) ⟨1, 3, 4, 7⟩ 1 1 (1 / 100) = [false, false, false, true] := by decide +kernel
+example : offCap (.lineString [(1, 3), (2, 7), (4, 5), (1, 3)]) ⟨1, 3, 4, 7⟩ 1 1 (1 / 100) = [true, true, true, true] := by decide +kernel
+-- an interior vertex attains the end time, but so does the end of the line: the cap is there
+example : offCap (.lineString [(1, 3), (4, 7), (4, 5)]) ⟨1, 3, 4, 7⟩ 1 1 0 = [false, false, false, true] := by decide +kernel
+-- an end within 1 % of the buffer of the extreme counts as attaining it
+example : offCap (.lineString [(1, 3), (4, 7), (399 / 100, 5)]) ⟨1, 3, 4, 7⟩ 2 1 (1 / 100) = [false, false, false, true] ∧
+    offCap (.lineString [(1, 3), (4, 7), (399 / 100, 5)]) ⟨1, 3, 4, 7⟩ (1 / 2) 1 (1 / 100) = [false, false, true, true] := by decide +kernel
 
 /-
   ## Calls: positional / keyword / omitted buffers, and histories
